@@ -43,9 +43,9 @@ INSPECT_KIND = {
     inspect.Parameter.KEYWORD_ONLY: "ko", inspect.Parameter.VAR_KEYWORD: "vk",
 }
 CONTEXTS = ["module", "async", "method", "staticmethod", "classmethod", "nested", "inner-function-of-init"]
-ANN = ["none", "all", "alternating", "string"]
+ANN = ["none", "all", "alternating", "string", "literal"]  # literal: Literal["r", "w"] and a nested one: the strings are values, not forward references
 DEFAULTS = ["0", "None", "x", "(1, 2)", "lambda q=1, /, *r: q", '"utf-8"', '"int"', 'lambda m="r", *, e="a-b": m']  # (string defaults are values, never annotations)
-RETURNS = [None, "int", '"R"', "list[int]"]
+RETURNS = [None, "int", '"R"', "list[int]", 'Literal["ok", "ko"]']
 _MAXC = {"quick": 2, "thorough": 3}
 
 
@@ -85,6 +85,8 @@ def build_params(shape, ann="none", default="0", first=None):
             p[2] = "int"
         elif ann == "string":
             p[2] = '"T"'
+        elif ann == "literal":
+            p[2] = 'Literal["r", "w"]' if i % 2 == 0 else 'dict[str, typing.Literal["on", "off"]]'
     return out
 
 
@@ -113,7 +115,7 @@ def make_source(shape, ctx, ann, default, ret):
     params = build_params(shape, ann, default, first)
     sig = render(params)
     r = f" -> {ret}" if ret else ""
-    head = "x = 1\nclass T: ...\nclass R: ...\n"
+    head = "import typing\nfrom typing import Literal\nx = 1\nclass T: ...\nclass R: ...\n"
     if ctx == "module":
         src = head + f"def f({sig}){r}:\n    pass\n"
         path = ("f",)
